@@ -122,6 +122,17 @@ where
                 LTermInner::Val(LValue::Number(w)),
             ) => {
                 /* u and w grounded */
+                if *u == 0 {
+                    // 0 * v = w holds for every v when w = 0 and for none otherwise
+                    return if *w == 0 {
+                        Ok(state.with_constraint(self))
+                    } else {
+                        Err(())
+                    };
+                }
+                if w % u != 0 {
+                    return Err(());
+                }
                 state
                     .smap_to_mut()
                     .extend(vwalk.clone(), LTerm::from(w / u));
@@ -133,6 +144,17 @@ where
                 LTermInner::Val(LValue::Number(w)),
             ) => {
                 /* v and w grounded */
+                if *v == 0 {
+                    // u * 0 = w holds for every u when w = 0 and for none otherwise
+                    return if *w == 0 {
+                        Ok(state.with_constraint(self))
+                    } else {
+                        Err(())
+                    };
+                }
+                if w % v != 0 {
+                    return Err(());
+                }
                 state
                     .smap_to_mut()
                     .extend(uwalk.clone(), LTerm::from(w / v));
